@@ -47,6 +47,7 @@ class FW:
 
     path = None          # the Path (or ConcreteP) of the current run
     tz = 0               # trailing zero bytes of the (opaque) file content, once the code asked
+    tbyte = 0            # the byte value whose trailing run was asked for (rstrip of another single byte value)
 
     @staticmethod
     def file(n):
@@ -56,11 +57,12 @@ class FW:
         """the only content-dependent question modelled: how many trailing zero bytes does the
         opaque file have?  A symbolic count, restricted (stated bound) to the classes that
         matter for paging: none, one, up to / across the last page boundary, a whole page, all."""
-        if chars != b'\x00' or self.segs != [('file', 0, len(self))]:
-            raise core.EngineLimit('bytes.rstrip on firmware other than rstrip(b"\\x00") of the whole file')
+        if not isinstance(chars, bytes) or len(chars) != 1 or self.segs != [('file', 0, len(self))] or (FW.tz and FW.tbyte != chars[0]):
+            raise core.EngineLimit('bytes.rstrip on firmware other than rstrip(<one byte value>) of the whole file')
         L = len(self)
         p = FW.path
-        t = p.int('trailing_zero_bytes', lo=0, hi=L)
+        FW.tbyte = chars[0]
+        t = p.int('trailing_zero_bytes' if chars == b'\x00' else 'trailing_%02x_bytes' % chars[0], lo=0, hi=L)
         cands = sorted(c for c in {0, 1, L % PAGE, L % PAGE + 1, PAGE, PAGE + 1, L} if 0 <= c <= L)
         p.assume(Or(*[t == c for c in cands]))
         for c in cands:
@@ -672,9 +674,12 @@ def serial_for(ch):
 
 
 def expected_flash(L, tz=0):
-    """zero-padded image; the last tz bytes of the file are known to be zero"""
+    """zero-padded image; the last tz bytes of the file are known to be zero (or the byte value FW.tbyte)"""
     pages = (L + PAGE - 1) // PAGE
-    image = FW([('file', 0, L - tz), ('zeros', tz + pages * PAGE - L)])
+    if tz and FW.tbyte:
+        image = FW([('file', 0, L - tz), ('lit', bytes([FW.tbyte]) * tz), ('zeros', pages * PAGE - L)])
+    else:
+        image = FW([('file', 0, L - tz), ('zeros', tz + pages * PAGE - L)])
     return {pg: image[pg * PAGE:(pg + 1) * PAGE].canon() for pg in range(pages)}
 
 
@@ -689,7 +694,7 @@ def run_once(p, L, variant, K, inject_mode, prof, sched='one'):
         vi = variant
     ch, pages = VARIANTS[vi]
     prints, sleeps, holder, fwh = [], [], [None], {}
-    FW.path, FW.tz = p, 0
+    FW.path, FW.tz, FW.tbyte = p, 0, 0
     FW.facts = {}
     if L == 'oversize':
         n = p.int('L', lo=0, hi=1 << 30)
